@@ -119,18 +119,21 @@ pub fn cases_c09(cfg: &Cfg) -> Vec<Case> {
     let mut rng = Rng::derive(cfg.seed, "c09", 0);
     let mut out = Vec::new();
     let (lens, budget, sweep): (Vec<usize>, usize, usize) = match (cfg.scale, cfg.tier) {
-        (Scale::Tiny, Tier::Quick) => (vec![2048], 30, 24),
-        (Scale::Tiny, Tier::Thorough) => (vec![2048, 4300], 60, 60),
+        (Scale::Tiny, Tier::Quick) => (vec![2048], 16, 6),
+        (Scale::Tiny, Tier::Thorough) => (vec![2048, 4300], 40, 24),
         (Scale::Mid, Tier::Quick) => (vec![2048, 2049, 8192, 26_000], 1500, 2048),
         (Scale::Mid, Tier::Thorough) => (vec![2048, 2049, 4096, 9000, 26_000, 70_001], 4000, 2048),
         (Scale::Full, Tier::Quick) => (vec![2047, 2048, 2049, 4096, 9000, 26_624, 70_001], 6000, 2048 + 300),
         (Scale::Full, Tier::Thorough) => (vec![2047, 2048, 2049, 4096, 4097, 6144, 9000, 26_624, 70_001, 300_000], 20_000, 2 * 2048 + 300),
     };
     let aliases: Vec<&'static str> = PLAIN_QUAD.iter().chain(HUFF_QUAD.iter()).copied().collect();
-    let types: &[&'static str] = if cfg.scale == Scale::Tiny { &["u8", "u32"] } else { &["u8", "u16", "u32", "u64", "usize", "u128"] };
+    let types: &[&'static str] = if cfg.scale == Scale::Tiny { &["u8", "u16"] } else { &["u8", "u16", "u32", "u64", "usize", "u128"] };
     for (ai, alias) in aliases.iter().enumerate() {
         let alias: &'static str = alias;
         let huff = alias.starts_with('H');
+        if cfg.scale == Scale::Tiny && cfg.tier == Tier::Quick && !alias.ends_with("Pfs") {
+            continue; // interpreters, quick tier: the four types with prefetch support only
+        }
         // alphabets by number of levels: 3 .. 9 levels for plain trees
         let alphas: Vec<(Alpha, Dist)> = if huff {
             vec![
@@ -160,7 +163,7 @@ pub fn cases_c09(cfg: &Cfg) -> Vec<Case> {
         let mut k = ai;
         for (li, &n) in lens.iter().enumerate() {
             for (xi, (alpha, dist)) in alphas.iter().enumerate() {
-                if cfg.scale == Scale::Tiny && xi != (ai + li) % alphas.len() {
+                if cfg.scale == Scale::Tiny && xi != (ai + li) % alphas.len().min(if cfg.tier == Tier::Quick { 3 } else { 99 }) {
                     continue;
                 }
                 if cfg.scale == Scale::Mid && (xi + ai + li) % 2 == 1 {
